@@ -60,22 +60,23 @@ def judge_timeline(j):
                 continue
             rel = t - start
             exp = None
+            # Generous margins: polls are ~1 s apart and stretch on a loaded machine.
             if mode == "answer":
-                if rel > 2.3:
+                if rel > 2.8:
                     exp = 1
             elif mode == "unsync":
-                if rel > 2.3 and seen_sync:
+                if rel > 2.8 and seen_sync:
                     exp = 2
             elif mode == "absent" and seen_sync:
-                if 2.3 < rel < 3.8:
+                if 2.6 < rel < 3.2:
                     exp = 2
-                elif rel > 6.3:
+                elif rel > 7.0:
                     exp = 0
             if exp is not None:
                 judged += 1
                 if status != exp:
                     bad.append("t=%.1fs (%.1fs into phase '%s'): segment status %d expected %d" % (t, rel, mode, status, exp))
-        if mode == "answer" and end - start > 2.3:
+        if mode == "answer" and end - start > 2.8:
             seen_sync = True
     return judged, bad
 
